@@ -188,7 +188,8 @@ int main(int argc, char** argv) {
             vx::run_default([&] { run_sort(c, &fail_inputs); });
         });
     std::vector<std::vector<uint32_t>> in = inputs(thorough);
-    std::vector<int> threads = thorough ? std::vector<int>{1, 2, 3, 4, 5, 6, 7, 8, 16, 33} : std::vector<int>{1, 2, 3, 5, 8, 16};
+    // more than 16 threads = more than 16 sequences for the exact splitter (std::sort stability threshold, see the inputs)
+    std::vector<int> threads = thorough ? std::vector<int>{1, 2, 3, 4, 5, 6, 7, 8, 16, 17, 33} : std::vector<int>{1, 2, 3, 5, 8, 16, 17};
     std::vector<int> overs = thorough ? std::vector<int>{1, 2, 10} : std::vector<int>{2, 10};
     // case id -> (input, threads, splitting, stable, tracked, oversampling)
     uint64_t per = threads.size() * 2 * 2 * 2 * overs.size();
